@@ -10,6 +10,14 @@ NOTE_COMMON = ("Trusted: Verus 0.2026.09.13 + Z3; the extractor's logged rewrite
                "std/serde_json stand-ins listed in evidence.coverage.trusted_base (external_body / assume_specification / uninterp); ")
 
 CLAIMED = {
+    "C14": {
+        "text": "Proof: ThreadPool::new establishes and execute preserves workers.len() <= max_workers (one connection per worker: the bound) and the provisioning "
+                "invariant `workers == max or counter <= workers` where the counter is raised by execute before the job is sent; the worker loop is verified to run the job "
+                "before lowering the counter and never to raise it (the rely execute's proof uses).",
+        "note": NOTE_COMMON + "rely/guarantee reading of the shared counter: an acquisition by the acceptor yields a value <= the last one it saw (workers only decrement: "
+                "obligation C14.w-monotone); thread scheduling itself is not explored; counter arithmetic is assumed not to reach usize::MAX; thread::spawn/mpsc are stand-ins.",
+        "ref": "5-C14",
+    },
     "C07": {
         "text": "Proof: MethodCall::send/recv/next/oneway/more and From<Reply> for ErrorKind satisfy, for all connection states, replies and flags: a refused send "
                 "(object already sent, or connection busy) touches nothing and writes nothing; a successful non-oneway send takes both slots; recv returns them exactly "
